@@ -24,14 +24,36 @@ type Writer struct {
 	Calls        int
 	Yield        func()
 	armedNext    bool
+	bracketed    bool
 	Fired        map[string]int
+	G            Gate
 }
 
 func NewWriter() *Writer { return &Writer{Budget: -1, Fired: map[string]int{}} }
 
+// BeginOp / EndOp bracket one library call that writes to w (stallNs > 0: the
+// first non-empty Write of the call is slow, see Gate). Optional: a Writer that
+// is never bracketed behaves as before.
+func (w *Writer) BeginOp(stallNs int64) {
+	w.G.Fired = &w.Fired
+	w.bracketed = true
+	w.G.Begin(stallNs)
+}
+func (w *Writer) EndOp() (late int, note string, foreign int) { return w.G.End() }
+
 func (w *Writer) Write(p []byte) (int, error) {
+	yield := true
+	if w.bracketed {
+		var late bool
+		yield, late = w.G.enter(len(p), "Write", int64(len(w.Got)))
+		if late {
+			return 0, ErrLate
+		}
+		w.G.mu.Lock()
+		defer w.G.mu.Unlock()
+	}
 	w.Calls++
-	if w.Yield != nil {
+	if yield && w.Yield != nil {
 		w.Yield()
 	}
 	if len(p) == 0 {
